@@ -90,6 +90,7 @@ type FuncCtx struct {
 	pendingQueries []pendingQ
 	spec           *specCtx
 	clauseErr      string
+	macroDepth     int
 	mayCallBusy    map[types.Object]bool
 	aliases        map[types.Object]ast.Expr
 	aliasDepth     int
